@@ -123,7 +123,7 @@ def main(argv=None):
         print(f"VIOLATION property={prop} replay={path}")
         print(f"  clause={f['clause']} cases={sum(1 for g in new if g['clause'] == f['clause'])}"
               f" first={json.dumps(f.get('event'), default=str)[:600]}")
-    if not args.replay:
+    if not args.replay and not os.environ.get("VERIF_NO_EVIDENCE"):      # (set by tools/ when a check is pointed at a seeded change)
         cov = dict(out.coverage)
         cov.setdefault("known_finding_cases", {k: v[1] for k, v in known.items()})
         _write_evidence(prop, args.tier, seed, out.level, cov, wall, len(new), out.assumptions)
